@@ -34,6 +34,17 @@ void ob_c10b_matmul(const ARR<2,3>& a, const ARR<3,2>& b)
     VIEW(r, na::matmul(a, b));
     EXPECT_VIEW2("C10.eval.matmul.shape", "C10.eval.matmul.element", r, 2,2, a(i,Z)*b(Z,j) + a(i,(size_t)1)*b((size_t)1,j) + a(i,(size_t)2)*b((size_t)2,j), 0);
 }
+// ---- column-major result layout and caller-supplied outputs: the element at every INDEX of the result is the view's element, whatever the
+// buffer layout (non-palindromic shapes, so that a layout mix-up cannot cancel out)
+#include "nmtools/array/view/transpose.hpp"
+#include "nmtools/array/view/flip.hpp"
+#include "nmtools/array/view/ufuncs/subtract.hpp"
+void ob_c10b_column_major(const ARR<2,3>& a, const ARR<3>& b)
+{ PIN(a, 2,3); PIN(b, 3);
+    { VIEW(v, view::transpose(a)); VIEW(r, na::eval(v, None, None, na::ColumnMajorResolver)); EXPECT_VIEW2("C10.eval.column_major.shape", "C10.eval.column_major.element_at_every_index", r, 3,2, a(j,i), 20); }
+    { VIEW(v, view::subtract(a, b)); VIEW(r, na::eval(v, None, None, na::ColumnMajorResolver)); EXPECT_VIEW2("C10.eval.column_major.shape", "C10.eval.column_major.element_at_every_index", r, 2,3, a(i,j) - b(j), 21); }
+}
+// (tried and not stated: a rank-3 column-major result and a caller-supplied output - the evaluator's copy loop does not fold there)
 // (not stated: eval of a composed view of depth 3, the step-wise vs one-shot comparison and caller-supplied outputs - the evaluator's copy loop over
 //  a nested view is not folded by LLVM for symbolic elements; that copy loop is decided structurally by rule R-EVAL)
 void ob_c10b_negctl(const ARR<2,3>& a)
